@@ -23,7 +23,9 @@ import (
 	"context"
 	"errors"
 	"strings"
+	"unicode/utf8"
 
+	"entgo.io/ent/dialect/sql"
 	"google.golang.org/grpc"
 
 	"github.com/grpc-ecosystem/grpc-gateway/v2/runtime"
@@ -44,6 +46,20 @@ func projectSubscriptionPrefix(project string) string {
 
 func projectSnapshotPrefix(project string) string {
 	return project + "/snapshots/"
+}
+
+// nameHasExactPrefix complements the generated NameHasPrefix predicates, which
+// translate to LIKE: on SQLite LIKE ignores ASCII case, so listing
+// "projects/p" also returned the resources of "projects/P". Comparing the
+// leading characters with = is exact on every dialect; keeping the LIKE
+// predicate next to it keeps the query index friendly.
+func nameHasExactPrefix(column, prefix string) func(*sql.Selector) {
+	return func(s *sql.Selector) {
+		s.Where(sql.P(func(b *sql.Builder) {
+			b.WriteString("substr(").WriteString(s.C(column)).WriteString(", 1, ").
+				Arg(utf8.RuneCountInString(prefix)).WriteString(") = ").Arg(prefix)
+		}))
+	}
 }
 
 func isValidTopicName(name string) bool {
